@@ -1,11 +1,17 @@
-"""Obligation runner for mirsym: explores the paths of a scenario and discharges claims per path."""
+"""Obligation runner for mirsym.
+
+Phase 1  enumerate the feasible paths of a scenario (symbolic execution with branch-feasibility queries only)
+Phase 2  per path (parallel workers): re-execute the path by decision replay and discharge every claim with a one-shot solver
+Phase 3  native replay of the first counterexample of every violated claim
+"""
+import multiprocessing as mp
 import os
 import time
 
 import z3
 
-from . import mirdump, parser
-from .interp import Inconclusive, Interp, Panic
+from . import dm, mirdump, parser
+from .interp import Inconclusive, Infeasible, Interp, Panic, Path
 from .models import build_models
 
 _loaded = {}
@@ -37,14 +43,19 @@ class ClaimResult:
         self.paths = 0
         self.queries = 0
         self.time = 0.0
-        self.cex = None             # (model, path decisions, detail)
         self.detail = ""
+        self.cex_pre = None         # plain data extracted from the first counterexample
+        self.cex_consts = None
+        self.cex_decisions = None
+        self.reproduced = None
+        self.replay_text = ""
+        self.replay_info = None
 
 
 class Scenario:
-    """scenario(I) -> obs (any python object) executed on the current path; it may raise Panic.
-    claims(obs, I) -> list of (name, z3 Bool or python bool) evaluated at the end of each completed path.
-    panics_allowed: if False every feasible Panic is a violation of the claim 'no panic'.
+    """scenario(I) -> obs executed on the current path; may raise Panic.
+    claims(obs, I) -> [(name, z3 Bool | bool)] evaluated at the end of each completed path.
+    replayer: object with extract(I, model, obs) -> plain dict and run(I, scenario, claim_name, pre) -> (bool, text, info)
     """
 
     def __init__(self, name, scenario, claims, panics_allowed=False, max_paths=400, time_budget=600, replayer=None, key=None):
@@ -53,10 +64,91 @@ class Scenario:
         self.replayer = replayer
         self.key = key or name
 
-    def run(self, I, replayer=None):
-        results = {}
-        order = []
-        samples = []
+    # ------------------------------------------------------------------ phase 1
+    def enumerate_paths(self, I):
+        paths = []
+        stats = dict(paths=0, infeasible=0, queries=0, solver_time=0.0, inconclusive=[])
+
+        def on_end(path, res):
+            paths.append(list(path.decisions))
+
+        st = I.run_paths(self.scenario, on_end, self.max_paths, self.time_budget)
+        stats.update({k: st[k] for k in ("paths", "infeasible", "queries", "solver_time")})
+        # Inconclusive paths are reported again (with their reason) by check_path; keep only the exploration bounds here
+        stats["inconclusive"] = [x for x in st["inconclusive"] if "bound" in x or "budget" in x]
+        return paths, stats
+
+    # ------------------------------------------------------------------ phase 2
+    def check_path(self, I, decisions):
+        """returns plain data: dict(claims=[...], panic=..., inconclusive=..., queries, solver_time)"""
+        I.path = Path(decisions)
+        dm.STATE["path"] = I.path
+        I.last_state = None
+        path = I.path
+        out = dict(claims=[], panic=None, inconclusive=None, queries=0, solver_time=0.0, decisions="".join("T" if d else "F" for d in decisions))
+        res = None
+        try:
+            res = self.scenario(I)
+        except Panic as p:
+            res = p
+        except Infeasible:
+            out["inconclusive"] = "path became infeasible on replay"
+            return out
+        except Inconclusive as e:
+            out["inconclusive"] = str(e)
+            return out
+        if len(path.decisions) != len(decisions) or path.new_alternatives:
+            out["inconclusive"] = "non-deterministic replay of a path (decisions %d vs %d)" % (len(path.decisions), len(decisions))
+            return out
+        if isinstance(res, Panic):
+            out["panic"] = res.msg
+            if not self.panics_allowed and path.check(heavy=True) == z3.sat:
+                c = dict(name="no panic", status="violated", time=0.0, detail=res.msg)
+                self._attach_cex(I, c, path, getattr(I, "last_state", None))
+                out["claims"].append(c)
+            out["queries"], out["solver_time"] = path.queries, path.solver_time
+            return out
+        try:
+            cl = self.claims(res, I)
+        except Inconclusive as e:
+            out["inconclusive"] = "claims: " + str(e)
+            return out
+        out["claims"].append(dict(name="no panic", status="holds", time=0.0, detail=""))
+        for name, c in cl:
+            if isinstance(c, bool):
+                c = z3.BoolVal(c)
+            t0 = time.time()
+            neg = z3.simplify(z3.Not(c))
+            d = dict(name=name, status="holds", time=0.0, detail="")
+            if not z3.is_false(neg):
+                st = path.check(neg, heavy=True)
+                d["time"] = time.time() - t0
+                if os.environ.get("MIRSYM_VERBOSE") and d["time"] > 5:
+                    print("    [%s] %-60s %s %.1fs" % (out["decisions"][-12:], name[:60], st, d["time"]), flush=True)
+                if st == z3.sat:
+                    d["status"] = "violated"
+                    d["detail"] = "counterexample on path " + out["decisions"]
+                    self._attach_cex(I, d, path, res)
+                elif st != z3.unsat:
+                    d["status"] = "inconclusive"
+                    d["detail"] = "solver: unknown (%s)" % path.last_solver.reason_unknown()
+            out["claims"].append(d)
+        out["queries"], out["solver_time"] = path.queries, path.solver_time
+        return out
+
+    def _attach_cex(self, I, d, path, obs):
+        m = path.last_solver.model()
+        d["consts"] = sorted((str(x), str(m[x])) for x in m.decls() if x.arity() == 0)[:60]
+        d["pre"] = None
+        if self.replayer is not None and obs is not None:
+            try:
+                d["pre"] = self.replayer.extract(I, m, obs)
+            except Exception as e:
+                d["pre_error"] = repr(e)
+
+    # ------------------------------------------------------------------ aggregate
+    def aggregate(self, I, path_results, stats):
+        results, order = {}, []
 
         def get(name):
             if name not in results:
@@ -64,75 +156,119 @@ class Scenario:
                 order.append(name)
             return results[name]
 
-        nopanic = get("no panic")
-
-        def on_end(path, res):
-            if isinstance(res, Inconclusive):
-                r = get("execution")
-                r.status = "inconclusive"
-                r.detail = str(res)
-                return
-            if isinstance(res, Panic):
-                nopanic.paths += 1
-                if not self.panics_allowed:
-                    # the panic path is feasible by construction (decide() only follows satisfiable sides)
-                    if path.check() == z3.sat:
-                        if nopanic.status != "violated":
-                            nopanic.status = "violated"
-                            nopanic.cex = (path.solver.model(), list(path.decisions), res.msg, getattr(I, "last_state", None))
-                            nopanic.detail = res.msg
-                return
-            nopanic.paths += 1
-            try:
-                cl = self.claims(res, I)
-            except Inconclusive as e:
-                r = get("execution")
-                r.status, r.detail = "inconclusive", "claims: " + str(e)
-                return
-            if len(samples) < 3:
-                samples.append(dict(path_decisions=len(path.decisions), pc_terms=len(path.pc), claims=[n for n, _ in cl]))
-            for name, c in cl:
-                r = get(name)
+        get("no panic")
+        for pr in path_results:
+            stats["queries"] += pr["queries"]
+            stats["solver_time"] += pr["solver_time"]
+            if pr["inconclusive"]:
+                stats["inconclusive"].append(pr["inconclusive"])
+            for c in pr["claims"]:
+                r = get(c["name"])
                 r.paths += 1
-                if isinstance(c, bool):
-                    c = z3.BoolVal(c)
-                t0 = time.time()
-                neg = z3.simplify(z3.Not(c))
-                if z3.is_false(neg):
-                    continue
-                st = path.check(neg)
-                r.queries += 1
-                r.time += time.time() - t0
-                if st == z3.unsat:
-                    continue
-                if st == z3.sat:
-                    if r.status != "violated":
-                        r.status = "violated"
-                        r.cex = (path.solver.model(), list(path.decisions), "claim '%s' fails" % name, res)
-                        r.detail = "counterexample on path %s" % ("".join("T" if d else "F" for d in path.decisions))
-                else:
-                    if r.status == "holds":
-                        r.status = "inconclusive"
-                        r.detail = "solver: unknown (%s)" % path.solver.reason_unknown()
-
-        t0 = time.time()
-        stats = I.run_paths(self.scenario, on_end, self.max_paths, self.time_budget)
-        stats["wall"] = time.time() - t0
+                r.time += c["time"]
+                r.queries += 1 if c["time"] > 0 else 0
+                if c["status"] == "violated" and r.status != "violated":
+                    r.status, r.detail = "violated", c["detail"]
+                    r.cex_pre, r.cex_consts, r.cex_decisions = c.get("pre"), c.get("consts"), pr["decisions"]
+                    if c.get("pre_error"):
+                        r.replay_text = "extracting the counterexample failed: " + c["pre_error"]
+                elif c["status"] == "inconclusive" and r.status == "holds":
+                    r.status, r.detail = "inconclusive", c["detail"]
         if stats["inconclusive"]:
             r = get("execution")
             r.status = "inconclusive"
             r.detail = "; ".join(sorted(set(stats["inconclusive"])))[:400]
-        stats["samples"] = samples
-        # native replay of every violated claim (first counterexample each)
-        for n in order:
-            r = results[n]
-            r.reproduced, r.replay_text, r.replay_info = None, "", None
-            if r.status == "violated":
-                if self.replayer is None or r.cex[3] is None:
-                    r.reproduced, r.replay_text = False, "no native replay available for this scenario"
-                else:
-                    try:
-                        r.reproduced, r.replay_text, r.replay_info = self.replayer.replay(I, self, n, r.cex[0], r.cex[3])
-                    except Exception as e:  # replay machinery failure is never a violation
-                        r.reproduced, r.replay_text = False, "replay failed: %r" % (e,)
-        return [results[n] for n in order], stats
+        return [results[n] for n in order]
+
+    # ------------------------------------------------------------------ phase 3
+    def replay_violations(self, I, results):
+        for r in results:
+            if r.status != "violated":
+                continue
+            if self.replayer is None or r.cex_pre is None:
+                r.reproduced = False
+                r.replay_text = r.replay_text or "no native replay available for this scenario"
+                continue
+            try:
+                r.reproduced, r.replay_text, r.replay_info = self.replayer.run(I, self, r.name, r.cex_pre)
+            except Exception as e:  # replay machinery failure is never a violation
+                r.reproduced, r.replay_text = False, "replay failed: %r" % (e,)
+
+    # ------------------------------------------------------------------ sequential convenience (developer driver)
+    def run(self, I):
+        t0 = time.time()
+        paths, stats = self.enumerate_paths(I)
+        prs = [self.check_path(I, d) for d in paths]
+        res = self.aggregate(I, prs, stats)
+        self.replay_violations(I, res)
+        stats["wall"] = time.time() - t0
+        stats["samples"] = [dict(path=p["decisions"], claims=[c["name"] for c in p["claims"]][:6]) for p in prs[:2]]
+        return res, stats
+
+
+# ---------------------------------------------------------------------------------------------- parallel driver
+_SCEN = []
+
+
+def _w_enum(i):
+    I = load()
+    try:
+        return i, _SCEN[i].enumerate_paths(I), None
+    except Exception as e:
+        import traceback
+        return i, None, "%r %s" % (e, traceback.format_exc()[-500:])
+
+
+def _w_check(args):
+    i, dec = args
+    I = load()
+    try:
+        return i, _SCEN[i].check_path(I, dec)
+    except Exception as e:
+        import traceback
+        return i, dict(claims=[], panic=None, inconclusive="mirsym failed: %r %s" % (e, traceback.format_exc()[-400:]), queries=0, solver_time=0.0,
+                       decisions="".join("T" if d else "F" for d in dec))
+
+
+def run_parallel(scenarios, jobs=8, log=None):
+    """returns list of (scenario, results [ClaimResult], stats)"""
+    global _SCEN
+    I = load()
+    _SCEN = list(scenarios)
+    out = []
+    if not _SCEN:
+        return out
+    t0 = time.time()
+    ctx = mp.get_context("fork")
+    with ctx.Pool(max(1, min(jobs, len(_SCEN)))) as pool:
+        enum = {}
+        for i, r, err in pool.imap_unordered(_w_enum, range(len(_SCEN))):
+            enum[i] = (r, err)
+    tasks = []
+    for i in range(len(_SCEN)):
+        r, err = enum[i]
+        if r:
+            # longest paths first (they tend to be the expensive ones)
+            for d in sorted(r[0], key=lambda d: -len(d)):
+                tasks.append((i, d))
+    prs = {i: [] for i in range(len(_SCEN))}
+    if tasks:
+        with ctx.Pool(max(1, min(jobs, len(tasks)))) as pool:
+            for i, pr in pool.imap_unordered(_w_check, tasks, chunksize=1):
+                prs[i].append(pr)
+    for i, sc in enumerate(_SCEN):
+        r, err = enum[i]
+        if err:
+            cr = ClaimResult("execution")
+            cr.status, cr.detail = "inconclusive", "mirsym failed: " + err
+            out.append((sc, [cr], dict(paths=0, queries=0, solver_time=0.0, wall=time.time() - t0, inconclusive=[err], samples=[])))
+            continue
+        paths, stats = r
+        res = sc.aggregate(I, prs[i], stats)
+        sc.replay_violations(I, res)
+        stats["wall"] = time.time() - t0
+        stats["samples"] = [dict(path=p["decisions"], claims=[c["name"] for c in p["claims"]][:6]) for p in prs[i][:2]]
+        out.append((sc, res, stats))
+        if log:
+            log("  mirsym %-66s paths=%d queries=%d solver=%.0fs" % (sc.name[:66], stats["paths"], stats["queries"], stats["solver_time"]))
+    return out
